@@ -76,12 +76,15 @@ def run(ctx):
     rng = ctx.rng("c19")
     ctx.rule = ("main_cli --lst on generated programs of 1-3 files with labels (each followed by a marker word), constants of any value "
                 "(negative, > 16 bit, label-relative), exported and local symbols, mixed-case names x output selectors (-o bin/raw, "
-                "--implicit-bin, make_bin, make_raw, make_wav, none); distinct = distinct (program, selector); non-trivial = at least 3 symbols")
+                "--implicit-bin, make_bin, make_raw, make_wav, several make_* directives, -o together with a directive, none); distinct = distinct (program, selector); non-trivial = at least 3 symbols")
     selectors = [
         (["-o", "out.bin"], "", "out.bin", "bin"), (["-o", "out.raw"], "", "out.raw", "raw"), (["-o", "res"], "", "res", "raw"),
         (["--implicit-bin"], "", "main.bin", "bin"), ([], "make_bin\n", "main.bin", "bin"), ([], "make_raw\n", "main", "raw"),
         ([], "make_wav 'tape.wav'\n", "tape.wav", "bk_wav"), ([], "make_bin 'lib/named.bin'\n", "lib/named.bin", "bin"), ([], "", None, None),
         (["-o", "sraw"], "", "sraw", "raw"), ([], "make_bin 'cabin'\n", "cabin", "bin"), (["-o", "a.b.bin"], "", "a.b.bin", "bin"),
+        # several outputs: the listing goes with the first directive (or with -o when given)
+        ([], "make_bin 'first.bin'\nmake_raw 'second.raw'\n", "first.bin", "bin"), ([], "make_raw 'zz'\nmake_bin 'aa.bin'\nmake_wav 'w.wav'\n", "zz", "raw"),
+        (["-o", "o2.bin"], "make_raw 'm1'\n", "o2.bin", "bin"),
     ]
     n_runs = 400 if ctx.thorough else 120
     lst_reqs = []
